@@ -288,7 +288,7 @@ def unmarshalSigningKeys : Nat → List Json → List (Str × Val) → Res (List
     match j with
     | .str k => unmarshalSigningKeys f js (mapStore acc k .nil)
     | .obj kv =>
-      if !anySupported (jsonSize 200 (.obj kv) + 2) (canonAny 200 (.obj kv)) then .unsupported else
+      -- numbers keep their literal here (`UseNumber`, repair D5), so nothing is lost in the intermediate map
       match canonAny 200 (.obj kv) with
       | .obj ckv =>
         match Json.lookup "kind".toList ckv with
